@@ -95,7 +95,7 @@ const char *signame(int sig) {
     switch (sig) {
     case SIGSEGV: return "SIGSEGV"; case SIGBUS: return "SIGBUS"; case SIGFPE: return "SIGFPE";
     case SIGILL: return "SIGILL"; case SIGABRT: return "SIGABRT"; case SIGALRM: return "HANG";
-    case SIGTRAP: return "SIGTRAP";
+    case SIGTRAP: return "SIGTRAP"; case 77: return "a fatal sanitizer report";
     } return "SIG?";
 }
 static void on_fatal(int sig) {
@@ -183,7 +183,7 @@ static int do_replay(const Str &path, bool quiet) {
         if (pid == 0) { Ctx ctx; ctx.prop = prop; ctx.tier = p[3]; ctx.worker = atoi(p[1].c_str()); ctx.nworkers = atoi(p[2].c_str()); ctx.secondary = p[4] == "1"; ctx.t_start = now_s(); ctx.t_deadline = now_s() + 600;
             g_progress_ptr = &ctx.progress; guard_install(); c->run(ctx); _exit(ctx.n_viol_total ? 1 : 0); }
         int stt = 0; waitpid(pid, &stt, 0);
-        if (WIFSIGNALED(stt)) { if (!quiet) printf("replayed: property=%s worker share %s/%s is killed by %s\n", prop.c_str(), p[1].c_str(), p[2].c_str(), signame(WTERMSIG(stt))); return 1; }
+        if (WIFSIGNALED(stt) || (WIFEXITED(stt) && WEXITSTATUS(stt) == 77)) { if (!quiet) printf("replayed: property=%s worker share %s/%s is killed by %s\n", prop.c_str(), p[1].c_str(), p[2].c_str(), WIFSIGNALED(stt) ? signame(WTERMSIG(stt)) : signame(77)); return 1; }
         if (WIFEXITED(stt) && WEXITSTATUS(stt) == 1) { if (!quiet) printf("replayed: property=%s worker share %s/%s reports violations\n", prop.c_str(), p[1].c_str(), p[2].c_str()); return 1; }
         if (!quiet) printf("replayed: property=%s worker share %s/%s completes without violation\n", prop.c_str(), p[1].c_str(), p[2].c_str());
         return 0;
@@ -198,7 +198,7 @@ static int do_replay(const Str &path, bool quiet) {
         if (pid == 0) { Ctx cc; cc.prop = prop; cc.tier = "quick"; cc.replay = true; cc.t_start = now_s(); g_progress_ptr = &cc.progress; guard_install(); c->replay(cc, unesc(enc)); write_result(cc, tmp); _exit(0); }
         int stt = 0; waitpid(pid, &stt, 0);
         both[i]->prop = prop;
-        if (WIFSIGNALED(stt)) both[i]->violation("", unesc(enc), fmt("the replay process was killed by %s", signame(WTERMSIG(stt))));
+        if (WIFSIGNALED(stt) || (WIFEXITED(stt) && WEXITSTATUS(stt) == 77)) both[i]->violation("", unesc(enc), fmt("the replay process was killed by %s", WIFSIGNALED(stt) ? signame(WTERMSIG(stt)) : signame(77)));
         else if (!read_result(*both[i], tmp)) { fprintf(stderr, "HARNESS-ERROR replay produced no result\n"); unlink(tmp.c_str()); return 2; }
         unlink(tmp.c_str());
     }
@@ -262,6 +262,7 @@ int main(int argc, char **argv) {
     for (int w = 0; w < workers; w++) {
         int stt = 0; waitpid(pids[w], &stt, 0);
         if (WIFSIGNALED(stt)) crashed_sig[w] = WTERMSIG(stt);
+        else if (WIFEXITED(stt) && WEXITSTATUS(stt) == 77) crashed_sig[w] = 77;      // the sanitizer run-time gave up (fatal report): exitcode=77 is set by the driver
         else if (!WIFEXITED(stt) || WEXITSTATUS(stt) != 0) { fprintf(stderr, "HARNESS-ERROR worker %d ended abnormally (status 0x%x)\n", w, stt); harness_error = true; }
     }
     Ctx all; all.prop = id; all.tier = tier; all.nworkers = workers; all.secondary = secondary;
